@@ -71,6 +71,11 @@ CLAIMED = {
          "Quick N=5 (0.5 M strings), thorough N=6 (8.6 M) over 22 classes (structural characters, two whitespace classes, ordinary and escape letters, \\uXXXX units valid and truncated, digit classes, sign, dot, exponent, literal words, raw control characters, invalid UTF-8). Error iff rejected; literal mapping (strings verbatim after unescaping, exact numbers, arrays as tuples, null as dynamic null, duplicate names rejected at evaluation); full-expression strings equal native templates.",
          "Recogniser calibrated per vector against encoding/json.Valid (drift = exit 2). Deep nesting and extreme numbers beyond length 6 come from the template/E1 part only.",
          "DESIGN.md §4 C13"),
+ "C14": ("spec/HclLexPos.tla (MC_C14) + MC_E1 + MC_C02",
+         "TLC enumerates every class string up to length N with the specification's reference position at each boundary; the three lexer entry points are run on the instantiated bytes and tokens are checked for tiling and position faithfulness (against HclLexPos.tla and an independent textseg counter); recorded ranges of error-free parses of TLC-generated expressions and files are sliced and re-parsed",
+         "Quick N=4 (168 k strings x 2 start positions x 3 lexers), thorough N=5; plus every MC_E1 depth-1 (thorough: depth-2) expression in all layouts and every MC_C02 file for range fidelity of names, labels, braces, operators, call parts, traversal steps and expression re-parse.",
+         "Position checks apply where token boundaries are grapheme-cluster boundaries (as the statement says); UAX #29 segmentation is the dependency textseg.",
+         "DESIGN.md §4 C14"),
  "C18": ("spec/DynBlock.tla + spec/HclDec.tla (MC_C18)",
          "TLC enumerates bodies mixing static and dynamic blocks with the specification's written-out static body (DynBlock!WrittenOut) and decoded value; the real dynblock.Expand + hcldec.Decode is compared with decoding the written-out body, with the model value, under unknown for_each, and in the scope pruned to the reported variables",
          "Bodies of <= 2 items (quick) / up to 3 (thorough) from ~90 dynamic-block templates (all iterable kinds incl. empty, null, non-iterable; default/custom iterators; labels from the iterator; nested static and dynamic content with outer-iterator references and shadowing) x 8 specs (list, tuple, set, single block, map, object, nested tuple-in-tuple, min/max).",
@@ -124,6 +129,7 @@ def main():
             {"name": "HclWriteTree", "path": "spec/HclWriteTree.tla", "serves_properties": ["C12"], "kind_free_text": "TLA+ edit-history machine of the hclwrite tree; TLC state dump streamed to a Go replayer"},
             {"name": "HclDec", "path": "spec/HclDec.tla", "serves_properties": ["C03", "C08", "C18"], "kind_free_text": "TLA+ model of hcldec spec kinds: ImpliedType, implied schema, Decode, JSON expressibility; generator MC_Dec; replayers harness/dec, c03, c08"},
             {"name": "Json8259", "path": "spec/Json8259.tla", "serves_properties": ["C13"], "kind_free_text": "TLA+ pushdown recogniser for RFC 8259 over byte classes; generator MC_C13"},
+            {"name": "HclLexPos", "path": "spec/HclLexPos.tla", "serves_properties": ["C14"], "kind_free_text": "TLA+ position-accounting machine (byte, line, grapheme column) over character classes; generator MC_C14"},
             {"name": "HclLexStr", "path": "spec/HclLexStr.tla", "serves_properties": ["C11"], "kind_free_text": "TLA+ model of quoted string literals over character classes (Escape/Unescape law) with value generator MC_C11"},
             {"name": "HclStruct", "path": "spec/HclStruct.tla", "serves_properties": ["C02", "C09", "C10"], "kind_free_text": "TLA+ layout machine writing native-syntax files with their abstract tree; TLC dump replayed into hclsyntax.ParseConfig"},
             {"name": "HclBody", "path": "spec/HclBody.tla", "serves_properties": ["C04"], "kind_free_text": "TLA+ machine of schema-driven body processing (PartialContent/Content with hidden sets); TLC dump replayed on four hcl.Body implementations"},
